@@ -70,7 +70,7 @@ def float_kind(e, table, cls=None):
     return False
 
 
-def conversions(func):
+def conversions(func, flow=None):
     """[(spec, arg expr or None, Mod node)] for %-format applications with literal left side"""
     out = []
     for n in walk_no_nested(func.node):
@@ -85,8 +85,9 @@ def conversions(func):
             if not isinstance(txt, str):
                 continue
             specs = [mo.group(0) for mo in CONV_RE.finditer(txt) if mo.group('type') != '%']
+            from ..fmt import written_values
             r = n.right
-            args = list(r.elts) if isinstance(r, ast.Tuple) else [r]
+            args = written_values(r, flow, flow.node_id_of(n) if flow is not None else None)
             if len(args) != len(specs):
                 args = [None] * len(specs)
             for sp, a in zip(specs, args):
@@ -123,7 +124,7 @@ def run(ctx, ck):
     lowprec = {}
     for f in sorted(writers, key=lambda x: x.qual):
         cls = f.cls.name if f.cls else None
-        for sp, a, node in conversions(f):
+        for sp, a, node in conversions(f, ctx.flow(f)):
             t = sp[-1]
             if t in 'di':
                 if a is None:
